@@ -5,110 +5,12 @@ import (
 	"go/constant"
 	"go/token"
 	"go/types"
-	"strings"
 
-	"cvsslint/internal/facts"
 	"cvsslint/internal/ir"
 	"cvsslint/internal/load"
 
 	"golang.org/x/tools/go/ssa"
 )
-
-// decodeModel is what the skeleton rules know about one Decode method.
-type decodeModel struct {
-	Level   *facts.Level
-	Fn      *types.Func
-	SF      *ssa.Function
-	B       *ir.Builder
-	Obj     ssa.Value // the object decoded into (φ of the receiver and a fresh constructor result)
-	ObjT    *ir.Term
-	Split   *ssa.Call
-	Values  *ir.Term // term of the split result
-	Tokens  *ir.Term // the slice ranged over
-	One     *ssa.Call
-	Header  *ssa.BasicBlock
-	LastErr *ssa.Phi
-	Success *ssa.Return
-	Returns []*ssa.Return
-	ok      bool
-}
-
-func (e *Env) modelDecode(l *facts.Level, rule string) *decodeModel {
-	c := e.C
-	m := &decodeModel{Level: l}
-	m.Fn = l.Method("Decode")
-	if m.Fn == nil {
-		c.Fail(rule, l.String()+".Decode", "", "method not found")
-		return nil
-	}
-	who := fname(m.Fn)
-	pos := e.P.Pos(m.Fn.Pos())
-	m.SF = e.P.SSAFunc(m.Fn)
-	if m.SF == nil || len(m.SF.Blocks) == 0 {
-		c.Undecided(rule, who, pos, "no SSA body")
-		return nil
-	}
-	sig := m.Fn.Type().(*types.Signature)
-	if sig.Params().Len() != 1 || sig.Results().Len() != 2 || !types.Identical(sig.Results().At(0).Type(), l.Ptr()) {
-		c.Fail(rule, who, pos, "signature is not Decode(string) (*"+l.Spec.Name+", error)")
-		return nil
-	}
-	m.B = ir.NewBuilder(m.SF)
-	for _, b := range m.SF.Blocks {
-		for _, in := range b.Instrs {
-			switch x := in.(type) {
-			case *ssa.Return:
-				m.Returns = append(m.Returns, x)
-			case *ssa.Call:
-				callee := x.Call.StaticCallee()
-				if callee == nil {
-					continue
-				}
-				if callee.String() == "strings.Split" {
-					if m.Split != nil {
-						c.Undecided(rule, who, e.P.Pos(x.Pos()), "more than one strings.Split in Decode")
-						return nil
-					}
-					m.Split = x
-				}
-				if callee.Object() == types.Object(l.DecodeOne) {
-					if m.One != nil {
-						c.Undecided(rule, who, e.P.Pos(x.Pos()), "more than one call of the own-level decodeOne")
-						return nil
-					}
-					m.One = x
-				}
-			}
-		}
-	}
-	if m.Split == nil || m.One == nil {
-		c.Undecided(rule, who, pos, "strings.Split / own-level decodeOne call not found")
-		return nil
-	}
-	m.Obj = m.One.Call.Args[0]
-	m.ObjT = m.B.Term(m.Obj)
-	m.Values = m.B.Term(m.Split)
-	for _, r := range m.Returns {
-		if len(r.Results) == 2 && isNilValue(r.Results[1]) {
-			if m.Success != nil {
-				c.Undecided(rule, who, e.P.Pos(r.Pos()), "more than one success return")
-				return nil
-			}
-			m.Success = r
-		}
-	}
-	if m.Success == nil {
-		c.Fail(rule, who, pos, "no return with a nil error")
-		return nil
-	}
-	m.ok = true
-	return m
-}
-
-func isNilValue(v ssa.Value) bool {
-	c, ok := v.(*ssa.Const)
-	return ok && c.Value == nil
-}
 
 // edgeConds: the conditions that hold when control passes from pred to succ.
 func edgeConds(bld *ir.Builder, pred, succ *ssa.BasicBlock) []*ir.Term {
@@ -126,11 +28,8 @@ func edgeConds(bld *ir.Builder, pred, succ *ssa.BasicBlock) []*ir.Term {
 }
 
 // nonNilAt: value v is provably non-nil when control is in block b.
-func (e *Env) nonNilAt(m *decodeModel, v ssa.Value, b *ssa.BasicBlock, depth int) bool {
+func (e *Env) nonNilAt(v ssa.Value, b *ssa.BasicBlock, depth int) bool {
 	bld := e.builder(b.Parent())
-	if m != nil && b.Parent() == m.SF {
-		bld = m.B
-	}
 	return e.nonNilUnder(bld, v, ir.DomConds(bld, b), depth)
 }
 
@@ -221,183 +120,8 @@ func (e *Env) returnsAddrOfLiteral(fn *ssa.Function) bool {
 
 // ---------------------------------------------------------------------------
 
-// decodeSkeleton applies the Decode-level rules. props selects which rule
-// families report (all families are computed; a family not selected is still
-// reported when it fails to be recognised, as UNDECIDED).
-func (e *Env) decodeSkeleton(l *facts.Level, v3 bool) {
-	c := e.C
-	m := e.modelDecode(l, "decode-skeleton")
-	if m == nil {
-		return
-	}
-	who := fname(m.Fn)
-	bld := m.B
-	vec := &ir.Term{Op: ir.OParam, N: 1}
-
-	// --- split of the unmodified input
-	sp := m.Values
-	okSplit := len(sp.Args) == 2 && sp.Args[0].Key() == vec.Key() && isStringConst(sp.Args[1], "/")
-	c.Check(okSplit, "vector-split", who, e.P.Pos(m.Split.Pos()), `strings.Split(vector, "/") on the unmodified input`, "the input is not split as strings.Split(<unmodified parameter>, \"/\"): "+sp.Pretty())
-
-	// --- nil receiver idiom: object is φ(receiver under receiver != nil, fresh constructor result)
-	recv := m.SF.Params[0]
-	okObj := false
-	switch x := m.Obj.(type) {
-	case *ssa.Phi:
-		okObj = len(x.Edges) == 2
-		for i, ed := range x.Edges {
-			if ed == ssa.Value(recv) {
-				// the edge must come from a block where recv != nil
-				conds := ir.DomConds(bld, x.Block().Preds[i])
-				if len(x.Block().Preds[i].Succs) == 2 { // the If block itself: use the edge
-					p := x.Block().Preds[i]
-					iff := p.Instrs[len(p.Instrs)-1].(*ssa.If)
-					cnd := bld.Term(iff.Cond)
-					if p.Succs[1] == x.Block() {
-						cnd = ir.NotCond(cnd)
-					}
-					conds = append(conds, cnd)
-				}
-				if !ir.HasCond(conds, ir.Bin("!=", bld.Term(recv), nilOf(recv.Type()))) {
-					okObj = false
-				}
-			} else if !e.nonNilAt(m, ed, x.Block().Preds[i], 0) {
-				okObj = false
-			} else if call, ok := ed.(*ssa.Call); !ok || call.Call.StaticCallee() == nil || call.Call.StaticCallee().Object() != types.Object(e.P.LookupFunc(l.Version.Pkg, "New"+l.Spec.Name)) {
-				okObj = false
-			}
-		}
-	}
-	c.Check(okObj, "nil-receiver-decode", who, e.P.Pos(m.Fn.Pos()), "decodes into the receiver, or into a fresh New"+l.Spec.Name+"() when the receiver is nil", "the object decoded into is not φ(receiver if non-nil, New"+l.Spec.Name+"())")
-
-	success := m.Success.Block()
-	sconds := ir.DomConds(bld, success)
-
-	// --- v3: version prefix
-	var verVal ssa.Value
-	if v3 {
-		e.versionPrefix(m, who, sconds, &verVal)
-	}
-
-	// --- loop over all tokens
-	e.tokenLoop(m, who, v3)
-
-	// --- deferred unsupported-metric error and immediate abort for others
-	e.deferredError(m, who, sconds)
-
-	// --- completeness before success
-	if v3 {
-		ge := l.Method("GetError")
-		var geCall *ir.Term
-		if ge != nil {
-			geCall = ir.Call(ge, m.ObjT)
-		}
-		ok := geCall != nil && ir.HasCond(sconds, ir.Bin("==", geCall, nilOf(errorType)))
-		c.Check(ok, "completeness-gate", who, e.P.Pos(m.Success.Pos()), "success is reached only after the own-level GetError() returned nil on the decoded object", "the success return is not dominated by own-level GetError() == nil on the decoded object")
-	} else {
-		enc := l.Method("Encode")
-		var encCall *ir.Term
-		if enc != nil {
-			encCall = ir.Call(enc, m.ObjT)
-		}
-		ex := func(i int) *ir.Term { return &ir.Term{Op: ir.OExtract, N: i, Args: []*ir.Term{encCall}} }
-		okErr := encCall != nil && ir.HasCond(sconds, ir.Bin("==", ex(1), nilOf(errorType)))
-		c.Check(okErr, "completeness-gate", who, e.P.Pos(m.Success.Pos()), "success is reached only after the own-level Encode() reported no error", "the success return is not dominated by own-level Encode() error == nil")
-		okEq := encCall != nil && ir.HasCond(sconds, ir.Bin("==", ex(0), vec))
-		c.Check(okEq, "canonical-order", who, e.P.Pos(m.Success.Pos()), "success is reached only if the input equals the own-level re-encoding (vector == enc)", "the success return is not dominated by vector == own-level Encode() result")
-	}
-
-	// --- no rejection other than the ones the specification has: every error return is caused by the prefix,
-	// by decodeOne, by the remembered unsupported-metric error, or by the completeness / canonical-form gate
-	e.decodeRejections(m, who, v3)
-
-	// --- returns: (obj, nil) once, (nil, non-nil error) otherwise
-	for _, r := range m.Returns {
-		cons := fmt.Sprintf("%s return at %s", who, e.P.Pos(r.Pos()))
-		if len(r.Results) != 2 {
-			continue
-		}
-		if r == m.Success {
-			ok := r.Results[0] == m.Obj && e.nonNilAt(m, r.Results[0], r.Block(), 0)
-			c.Check(ok, "result-exclusive", cons, e.P.Pos(r.Pos()), "(decoded object, nil)", "the success return does not hand out the (non-nil) object that was decoded into")
-			continue
-		}
-		okNilObj := isNilValue(r.Results[0])
-		okErr := e.nonNilAt(m, r.Results[1], r.Block(), 0)
-		switch {
-		case !okNilObj:
-			c.Fail("result-exclusive", cons, e.P.Pos(r.Pos()), "an error return also hands out a metrics object")
-		case !okErr:
-			c.Fail("result-exclusive", cons, e.P.Pos(r.Pos()), "an error return whose error is not provably non-nil (neither object nor error)")
-		default:
-			c.Ok("result-exclusive", cons, e.P.Pos(r.Pos()), "(nil, non-nil error)")
-		}
-	}
-}
-
 func isStringConst(t *ir.Term, s string) bool {
 	return t.Op == ir.OConst && t.C != nil && t.C.Kind() == constant.String && constant.StringVal(t.C) == s
-}
-
-// versionPrefix: R1 for v3.
-func (e *Env) versionPrefix(m *decodeModel, who string, sconds []*ir.Term, verVal *ssa.Value) {
-	c := e.C
-	l := m.Level
-	gv := e.P.LookupFunc(l.Version.Pkg, "GetVersion")
-	var call *ssa.Call
-	for _, b := range m.SF.Blocks {
-		for _, in := range b.Instrs {
-			if x, ok := in.(*ssa.Call); ok && x.Call.StaticCallee() != nil && x.Call.StaticCallee().Object() == types.Object(gv) {
-				call = x
-			}
-		}
-	}
-	if gv == nil || call == nil {
-		c.Fail("version-prefix", who, e.P.Pos(m.Fn.Pos()), "GetVersion is not called")
-		return
-	}
-	ct := m.B.Term(call)
-	arg := ct.Args[0]
-	want := idx(m.Values, 0)
-	c.Check(arg.Key() == want.Key(), "version-prefix", who+" GetVersion argument", e.P.Pos(call.Pos()), "first '/'-separated element of the input", "GetVersion is applied to "+arg.Pretty()+", not to the first element of the split input")
-	ex := func(i int) *ir.Term { return &ir.Term{Op: ir.OExtract, N: i, Args: []*ir.Term{ct}} }
-	c.Check(ir.HasCond(sconds, ir.Bin("==", ex(1), nilOf(errorType))), "version-prefix", who+" prefix error", e.P.Pos(call.Pos()), "success only if GetVersion reported no error", "success is reachable although GetVersion reported an error")
-	verT := gv.Type().(*types.Signature).Results().At(0).Type()
-	en := e.F.EnumOf(verT)
-	okUnk := false
-	if en != nil && en.Zero != nil {
-		okUnk = ir.HasCond(sconds, ir.Bin("!=", ir.Const(en.Zero.Val(), verT), ex(0)))
-	}
-	c.Check(okUnk, "version-prefix", who+" supported-version gate", e.P.Pos(call.Pos()), "success only if the version is not the unknown version", "success is reachable with the unknown version")
-	// version recorded on the object
-	var base *facts.Level
-	for lv := l; lv != nil; lv = lv.Lower {
-		base = lv
-	}
-	stored := false
-	for _, b := range m.SF.Blocks {
-		for _, in := range b.Instrs {
-			st, ok := in.(*ssa.Store)
-			if !ok {
-				continue
-			}
-			a := m.B.Addr(st.Addr)
-			if a.Op == ir.OField && a.Obj == types.Object(base.VerField) {
-				wantObj := m.ObjT
-				for lv := l; lv != base; lv = lv.Lower {
-					wantObj = ir.Field(wantObj, lv.Embedded)
-				}
-				if a.Args[0].Key() == wantObj.Key() && m.B.Term(st.Val).Key() == ex(0).Key() && b.Dominates(m.Success.Block()) {
-					stored = true
-				} else {
-					c.Fail("version-recorded", who, e.P.Pos(st.Pos()), "Ver is assigned something other than GetVersion's result on the decoded object")
-				}
-			}
-		}
-	}
-	c.Check(stored, "version-recorded", who, e.P.Pos(call.Pos()), "Ver of the decoded object = GetVersion(prefix) on every successful path", "the parsed version is not stored in the decoded object's Ver field before success")
-	// GetVersion itself
-	e.getVersionShape(gv)
 }
 
 // getVersionShape: GetVersion(vec) = (get(v[1]), nil) iff v := Split(vec, ":") has length 2 and v[0] == "CVSS".
@@ -472,53 +196,6 @@ func isZeroEnum(t *ir.Term) bool {
 	return ok && v == 0
 }
 
-// tokenLoop: R2 — the own-level decodeOne is applied to every '/'-separated
-// element (v2) / every element after the prefix (v3), as the first thing done
-// with the element, with no way to skip one or to leave early other than
-// returning.
-func (e *Env) tokenLoop(m *decodeModel, who string, v3 bool) {
-	c := e.C
-	fail := func(msg string) { c.Fail("token-loop", who, e.P.Pos(m.One.Pos()), msg) }
-	ia := elementOf(m.One.Call.Args[1])
-	if ia == nil {
-		fail("decodeOne is not applied to an element of the split input")
-		return
-	}
-	lp, why := analyseIndexLoop(ia)
-	if lp == nil {
-		fail("the tokens are not visited by a loop over all of them: " + why)
-		return
-	}
-	if m.One.Block() != lp.Body {
-		fail("decodeOne is not the first thing done for each element (something may skip it)")
-		return
-	}
-	st := m.B.Term(lp.Slice)
-	sliced := &ir.Term{Op: ir.OSlice, Args: []*ir.Term{m.Values, intConst(1), {Op: ir.OConst}, {Op: ir.OConst}}}
-	first := int64(-1)
-	switch st.Key() {
-	case m.Values.Key():
-		first = lp.Start
-	case sliced.Key():
-		first = lp.Start + 1
-	}
-	want := int64(0)
-	if v3 {
-		want = 1
-	}
-	switch {
-	case first < 0:
-		fail("the loop does not range over the split input but over " + st.Pretty())
-		return
-	case first != want:
-		fail(fmt.Sprintf("the loop starts at element %d of the split input, expected %d", first, want))
-		return
-	}
-	m.Header = lp.Header
-	m.Tokens = st
-	c.Ok("token-loop", who, e.P.Pos(m.One.Pos()), fmt.Sprintf("own-level decodeOne applied to every element of the split input from index %d on; no skip, no early exit other than return", want))
-}
-
 func isBuiltin(c *ssa.Call, name string) bool {
 	b, ok := c.Call.Value.(*ssa.Builtin)
 	return ok && b.Name() == name
@@ -531,190 +208,4 @@ func isIntConst(v ssa.Value, n int64) bool {
 	}
 	i, ok := constant.Int64Val(c.Value)
 	return ok && i == n
-}
-
-// deferredError: C11(c) / R9. With r the result of decodeOne in the loop:
-//   - on r != nil and !errs.Is(r, ErrNotSupportMetric): return (nil, errs.Wrap(r))
-//   - on r != nil and Is: remembered in a loop-carried variable that is never reset
-//   - success is dominated by "remembered == nil", and the remembered error is returned otherwise.
-func (e *Env) deferredError(m *decodeModel, who string, sconds []*ir.Term) {
-	c := e.C
-	if m.Header == nil {
-		c.Undecided("deferred-error", who, e.P.Pos(m.One.Pos()), "loop not recognised")
-		return
-	}
-	h := m.Header
-	r := ssa.Value(m.One)
-	rT := m.B.Term(r)
-	rNonNil := ir.Bin("!=", rT, nilOf(errorType))
-	// find the φ that carries the remembered error
-	var last *ssa.Phi
-	for _, in := range h.Instrs {
-		p, ok := in.(*ssa.Phi)
-		if !ok {
-			break
-		}
-		if !types.Identical(p.Type(), errorType) {
-			continue
-		}
-		last = p
-	}
-	if last == nil {
-		c.Fail("deferred-error", who, e.P.Pos(m.One.Pos()), "no loop-carried error variable: an 'unsupported metric' error would be forgotten")
-		return
-	}
-	ok := true
-	// leaves of the (possibly nested) φ-tree feeding the loop-carried variable
-	var visit func(p *ssa.Phi, seen map[*ssa.Phi]bool)
-	visit = func(p *ssa.Phi, seen map[*ssa.Phi]bool) {
-		if seen[p] {
-			return
-		}
-		seen[p] = true
-		for i, ed := range p.Edges {
-			pred := p.Block().Preds[i]
-			if p == last && !h.Dominates(pred) {
-				if !isNilValue(ed) {
-					ok = false
-					c.Fail("deferred-error", who, e.P.Pos(last.Pos()), "the remembered error does not start as nil")
-				}
-				continue
-			}
-			if q, isPhi := ed.(*ssa.Phi); isPhi && q != last && h.Dominates(q.Block()) {
-				visit(q, seen)
-				continue
-			}
-			conds := edgeConds(m.B, pred, p.Block())
-			switch {
-			case ir.HasCond(conds, rNonNil):
-				if ed != r {
-					ok = false
-					c.Fail("deferred-error", who, e.P.Pos(m.One.Pos()), "on a path where decodeOne failed and Decode carries on, the error is not remembered")
-				}
-			case ir.HasCond(conds, ir.NotCond(rNonNil)):
-				if ed != ssa.Value(last) {
-					ok = false
-					c.Fail("deferred-error", who, e.P.Pos(m.One.Pos()), "the remembered error is overwritten when a later token decodes fine")
-				}
-			default:
-				ok = false
-				c.Undecided("deferred-error", who, e.P.Pos(m.One.Pos()), "a loop back-edge not classified by decodeOne's result")
-			}
-		}
-	}
-	visit(last, map[*ssa.Phi]bool{})
-	lastT := m.B.Term(last)
-	if !ir.HasCond(sconds, ir.Bin("==", lastT, nilOf(errorType))) {
-		ok = false
-		c.Fail("deferred-error", who, e.P.Pos(m.Success.Pos()), "success is reachable although an 'unsupported metric' error was remembered")
-	}
-	// immediate abort for other errors and what is returned
-	isFn := e.externFunc(m.Level.Pkg.Types, "github.com/goark/errs", "Is")
-	nsm := e.sentinelGlobal("ErrNotSupportMetric")
-	var isT *ir.Term
-	if isFn != nil && nsm != nil {
-		isT = ir.Call(isFn, rT, &ir.Term{Op: ir.OGlobal, Obj: nsm})
-	}
-	seenAbort, seenDeferred := false, false
-	for _, ret := range m.Returns {
-		if ret == m.Success || len(ret.Results) != 2 {
-			continue
-		}
-		conds := ir.DomConds(m.B, ret.Block())
-		et := m.B.Term(ret.Results[1])
-		if isT != nil && ir.HasCond(conds, rNonNil) && ir.HasCond(conds, ir.NotCond(isT)) {
-			_, inner, isWrap := sentinelOf(et)
-			if isWrap && inner != nil && inner.Key() == rT.Key() {
-				seenAbort = true
-			} else {
-				ok = false
-				c.Fail("deferred-error", who, e.P.Pos(ret.Pos()), "an error other than 'unsupported metric' is not returned as errs.Wrap(that error)")
-			}
-		}
-		if ir.HasCond(conds, ir.Bin("!=", lastT, nilOf(errorType))) && h.Dominates(ret.Block()) && !ir.HasCond(conds, rNonNil) {
-			if ret.Results[1] == ssa.Value(last) {
-				seenDeferred = true
-			} else {
-				ok = false
-				c.Fail("deferred-error", who, e.P.Pos(ret.Pos()), "the remembered 'unsupported metric' error is not the one returned")
-			}
-		}
-	}
-	// every path on which decodeOne failed must either return or reach the header through a remembering edge:
-	// blocks dominated by r != nil may only exit to the header (checked above) or return.
-	if !seenAbort {
-		ok = false
-		c.Fail("deferred-error", who, e.P.Pos(m.One.Pos()), "no immediate return for decodeOne errors other than 'unsupported metric'")
-	}
-	if !seenDeferred {
-		ok = false
-		c.Fail("deferred-error", who, e.P.Pos(m.One.Pos()), "the remembered 'unsupported metric' error is never returned")
-	}
-	if ok {
-		c.Ok("deferred-error", who, e.P.Pos(m.One.Pos()), "other errors abort at once as errs.Wrap(err); 'unsupported metric' is remembered, never reset, returned after the scan; success only if none was remembered")
-	}
-}
-
-// decodeRejections classifies every error return of a Decode by the dominating
-// condition that leads to it; an error return with any other cause rejects
-// inputs the specification accepts (or reports a defect they do not have).
-func (e *Env) decodeRejections(m *decodeModel, who string, v3 bool) {
-	c := e.C
-	l := m.Level
-	rT := m.B.Term(m.One)
-	causes := []*ir.Term{ir.Bin("!=", rT, nilOf(errorType))}
-	// remembered error
-	if m.Header != nil {
-		for _, in := range m.Header.Instrs {
-			if p, ok := in.(*ssa.Phi); ok && types.Identical(p.Type(), errorType) {
-				causes = append(causes, ir.Bin("!=", m.B.Term(p), nilOf(errorType)))
-			}
-		}
-	}
-	if v3 {
-		if gv := e.P.LookupFunc(l.Version.Pkg, "GetVersion"); gv != nil {
-			for _, b := range m.SF.Blocks {
-				for _, in := range b.Instrs {
-					if x, ok := in.(*ssa.Call); ok && x.Call.StaticCallee() != nil && x.Call.StaticCallee().Object() == types.Object(gv) {
-						ct := m.B.Term(x)
-						ex := func(i int) *ir.Term { return &ir.Term{Op: ir.OExtract, N: i, Args: []*ir.Term{ct}} }
-						causes = append(causes, ir.Bin("!=", ex(1), nilOf(errorType)))
-						verT := gv.Type().(*types.Signature).Results().At(0).Type()
-						if en := e.F.EnumOf(verT); en != nil && en.Zero != nil {
-							causes = append(causes, ir.Bin("==", ir.Const(en.Zero.Val(), verT), ex(0)))
-						}
-					}
-				}
-			}
-		}
-		if ge := l.Method("GetError"); ge != nil {
-			causes = append(causes, ir.Bin("!=", ir.Call(ge, m.ObjT), nilOf(errorType)))
-		}
-	} else if enc := l.Method("Encode"); enc != nil {
-		call := ir.Call(enc, m.ObjT)
-		ex := func(i int) *ir.Term { return &ir.Term{Op: ir.OExtract, N: i, Args: []*ir.Term{call}} }
-		causes = append(causes, ir.Bin("!=", ex(1), nilOf(errorType)), ir.Bin("!=", ex(0), &ir.Term{Op: ir.OParam, N: 1}))
-	}
-	for _, r := range m.Returns {
-		if r == m.Success || len(r.Results) != 2 {
-			continue
-		}
-		conds := ir.DomConds(m.B, r.Block())
-		ok := false
-		for _, cause := range causes {
-			if ir.HasCond(conds, cause) {
-				ok = true
-			}
-		}
-		cons := fmt.Sprintf("%s return at %s", who, e.P.Pos(r.Pos()))
-		if ok {
-			c.Ok("decode-rejections", cons, e.P.Pos(r.Pos()), "rejection caused by the prefix, a token, the remembered unsupported metric or the completeness/canonical-form gate")
-		} else {
-			var cs []string
-			for _, g := range conds {
-				cs = append(cs, g.Pretty())
-			}
-			c.Fail("decode-rejections", cons, e.P.Pos(r.Pos()), "an error return whose cause is none of the specification's (prefix, token, unsupported metric, completeness, canonical form): reached under "+clip(strings.Join(cs, " & ")))
-		}
-	}
 }
